@@ -1,5 +1,6 @@
 """C04 - a tile is the same image however produced: MetaGrid geometry, crop pattern, split bookkeeping."""
 from pyvc.api import contract, loop, ghost, lemma, cls
+from pyvc import tracelib as T
 from . import shared_grid, c03_grid  # noqa
 G = 'mapproxy.grid:'
 
@@ -284,3 +285,93 @@ lemma('row_top_edge', ['C04'],
           z3.And((b3 - z3.ToReal(yt + r) * res * z3.ToReal(th)) == (b3 - z3.ToReal(yt) * res * z3.ToReal(th)) - z3.ToReal(r) * z3.ToReal(th) * res,
                  (b1 + z3.ToReal(yt - r + 1) * res * z3.ToReal(th)) == (b1 + z3.ToReal(yt + 1) * res * z3.ToReal(th)) - z3.ToReal(r) * z3.ToReal(th) * res)))(
           z3.Real('b1'), z3.Real('b3'), z3.Real('res'), z3.Int('th'), z3.Int('yt'), z3.Int('r')))
+
+
+# ---- request-minimising meta tile: the rectangle spanned by the requested tiles ----------------------------------------------------
+def _gen_full_tile_list(gen, rng):
+    from contracts.builders import _gen_meta_grid
+    z = rng.randint(0, 3)
+    n = rng.randint(1, 5)
+    return {'self': _gen_meta_grid(gen, rng),
+            'tiles': [{'$tuple': [rng.randint(0, 6), rng.randint(0, 6), z]} for _ in range(n)]}
+
+
+contract(G + 'MetaGrid._full_tile_list', props=['C04', 'C08'], fuzz_gen=_gen_full_tile_list,
+         types=dict(tiles='list[tuple[int,int,int]]'),
+         returns='tuple[list[opt[tuple[int,int,int]]],tuple[int,int],tuple[tuple[int,int,int],tuple[int,int,int]]]',
+         requires=['len(tiles) >= 1',
+                   'forall(lambda j: implies(0 <= j < len(tiles), tiles[j][0] >= 0 and tiles[j][1] >= 0 and tiles[j][2] == tiles[0][2]))'],
+         ensures=[
+             # bounds: the smallest column/row rectangle that contains every requested tile, on their common level
+             """forall(lambda j: implies(0 <= j < len(old(tiles)), result[2][0][0] <= old(tiles)[j][0] <= result[2][1][0]
+                       and result[2][0][1] <= old(tiles)[j][1] <= result[2][1][1]))""",
+             """exists(lambda j: 0 <= j < len(old(tiles)) and old(tiles)[j][0] == result[2][0][0])
+                and exists(lambda j: 0 <= j < len(old(tiles)) and old(tiles)[j][0] == result[2][1][0])
+                and exists(lambda j: 0 <= j < len(old(tiles)) and old(tiles)[j][1] == result[2][0][1])
+                and exists(lambda j: 0 <= j < len(old(tiles)) and old(tiles)[j][1] == result[2][1][1])""",
+             'result[2][0][2] == old(tiles)[0][2] and result[2][1][2] == old(tiles)[0][2]',
+             # the size of that rectangle in tiles, and one list entry per cell (row by row, see _create_tile_list)
+             'result[1][0] == 1 + result[2][1][0] - result[2][0][0] and result[1][1] == 1 + result[2][1][1] - result[2][0][1]',
+             'len(result[0]) == result[1][0] * result[1][1]',
+             # every cell of the rectangle is in the list exactly where the row-major order puts it: column offset m % w, rows
+             # from the top (north) downwards
+             """forall(lambda m: implies(0 <= m < len(result[0]), result[0][m] is not None
+                       and result[0][m][0] == result[2][0][0] + m % result[1][0]
+                       and result[0][m][1] == (result[2][0][1] + m // result[1][0] if self.grid.flipped_y_axis
+                                                else result[2][1][1] - m // result[1][0])
+                       and result[0][m][2] == old(tiles)[0][2]))"""],
+         loops={0: dict(types={'minx': 'int', 'maxx': 'int', 'miny': 'int', 'maxy': 'int', 'x': 'int', 'y': 'int'},
+                        inv=['minx <= maxx and miny <= maxy and minx >= 0 and miny >= 0',
+                             'minx <= old(tiles)[len(old(tiles)) - 1][0] <= maxx and miny <= old(tiles)[len(old(tiles)) - 1][1] <= maxy',
+                             'forall(lambda j: implies(0 <= j < _k, minx <= _seq[j][0] <= maxx and miny <= _seq[j][1] <= maxy))',
+                             """(minx == old(tiles)[len(old(tiles)) - 1][0] or exists(lambda j: 0 <= j < _k and _seq[j][0] == minx))
+                                and (maxx == old(tiles)[len(old(tiles)) - 1][0] or exists(lambda j: 0 <= j < _k and _seq[j][0] == maxx))
+                                and (miny == old(tiles)[len(old(tiles)) - 1][1] or exists(lambda j: 0 <= j < _k and _seq[j][1] == miny))
+                                and (maxy == old(tiles)[len(old(tiles)) - 1][1] or exists(lambda j: 0 <= j < _k and _seq[j][1] == maxy))"""])},
+         must_fail='result[1][0] == 1')
+
+
+def _minimal_chain(ex, st, post, result):
+    """the request-minimising meta tile is assembled from ONE rectangle: the bounds of the requested tiles"""
+    import z3
+    from pyvc.values import VSeq, eq
+    ftl = [e for i, e in T.evs(st, '_full_tile_list', 'MetaGrid._full_tile_list')]
+    mb = [e for i, e in T.evs(st, '_meta_bbox', 'MetaGrid._meta_bbox')]
+    sz = [e for i, e in T.evs(st, '_size_from_buffered_bbox', 'MetaGrid._size_from_buffered_bbox')]
+    tp = [e for i, e in T.evs(st, '_tiles_pattern', 'MetaGrid._tiles_pattern')]
+    mt = [e for i, e in T.evs(st, 'MetaTile')]
+    ok = len(ftl) == 1 and len(mb) == 1 and len(sz) == 1 and len(tp) == 1 and len(mt) == 1 and isinstance(ftl[0].result, VSeq) \
+        and isinstance(mb[0].result, VSeq)
+    goal = z3.BoolVal(bool(ok))
+    if ok:
+        tiles, grid_size, bounds = ftl[0].result.items
+        bbox, buffers = mb[0].result.items
+        kw = mt[0].kwargs
+        ok2 = mb[0].kwargs.get('tiles') is bounds and not [a for a in mb[0].args if a is not post.env['self']] \
+            and any(a is bbox for a in sz[0].args) \
+            and tp[0].kwargs.get('grid_size') is grid_size and tp[0].kwargs.get('buffers') is buffers \
+            and kw.get('bbox') is bbox and kw.get('size') is sz[0].result and kw.get('tile_patterns') is tp[0].result \
+            and kw.get('grid_size') is grid_size and result is mt[0].result
+        goal = z3.And(goal, z3.BoolVal(bool(ok2)))
+        if ok2:
+            # the level used for the pixel size is the level of the tiles
+            lvl = [a for a in sz[0].args if a is not post.env['self'] and a is not bbox]
+            tl = tp[0].kwargs.get('tiles')
+            goal = z3.And(goal, z3.BoolVal(len(lvl) == 1 and isinstance(tl, VSeq)))
+            if len(lvl) == 1 and isinstance(tl, VSeq):
+                goal = z3.And(goal, tl.length() == tiles.length(), eq(lvl[0], bounds.items[0].items[2]))
+    yield ('minimal_meta_tile_is_one_rectangle', goal,
+           '(tiles, grid_size, bounds) = _full_tile_list(requested); bbox, buffers = _meta_bbox(tiles=bounds); size from that bbox on '
+           'the level of the tiles; pattern from those tiles, that grid_size and those buffers; MetaTile carries exactly these')
+
+
+contract(G + 'MetaGrid.minimal_meta_tile', props=['C04', 'C08'],
+         types=dict(tiles='list[tuple[int,int,int]]'), returns='opaque', default_callee='opaque',
+         opaque_spec={'_meta_bbox': {'returns': 'tuple[tuple[real,real,real,real],tuple[int,int,int,int]]', 'pure': True},
+                      '_size_from_buffered_bbox': {'returns': 'tuple[int,int]', 'pure': True}, '_tiles_pattern': {'pure': True},
+                      'MetaTile': {'pure': True}},
+         opaque=['_meta_bbox', '_size_from_buffered_bbox', '_tiles_pattern', 'MetaTile'],
+         requires=['len(tiles) >= 1',
+                   'forall(lambda j: implies(0 <= j < len(tiles), tiles[j][0] >= 0 and tiles[j][1] >= 0 and tiles[j][2] == tiles[0][2]))'],
+         raises={'TypeError': True},
+         trace=[_minimal_chain])
